@@ -75,6 +75,28 @@ def domain_case(cid: str, rng: random.Random, n: int, rounds: int, k: int) -> di
     return {"id": cid, "cfg": tp.cfg_of(inst), "ub": 0, "plans": [], "dom": dom}
 
 
+def extreme_cfg(rng: random.Random, ll: int, k: int) -> dict:
+    """Constraint settings over the whole admissible range: defaults, small minima, large separation limits
+    (separation_min close to the season length or separation_max close to 0), large streak minima."""
+    kind = k % 4
+    if kind == 0:
+        return {}
+    if kind == 1:
+        hmin, amin = rng.randint(1, min(3, ll)), rng.randint(1, min(3, ll))
+        smin = rng.randint(0, min(3, ll))
+    elif kind == 2:
+        hmin, amin = 1, 1
+        smin = rng.randint(0, ll)
+        if rng.random() < 0.5:
+            return {"hmin": 1, "hmax": min(3, ll), "amin": 1, "amax": min(3, ll), "smin": smin, "smax": rng.randint(smin, ll)} \
+                if rng.random() < 0.6 else {"hmin": 1, "hmax": min(3, ll), "amin": 1, "amax": min(3, ll), "smin": 0, "smax": rng.randint(0, min(2, ll))}
+    else:
+        hmin, amin = rng.randint(1, ll), rng.randint(1, ll)
+        smin = rng.randint(0, ll)
+    return {"hmin": hmin, "hmax": rng.randint(hmin, ll), "amin": amin, "amax": rng.randint(amin, ll),
+            "smin": smin, "smax": rng.randint(smin, ll)}
+
+
 def _rr4_cfg(rounds: int, c: dict, fixed: bool = False) -> str:
     return ("SPECIFICATION SpecRR\nCONSTANTS N = 4\n Rounds = %d\n HMin = %d\n HMax = %d\n AMin = %d\n"
             " AMax = %d\n SMin = %d\n SMax = %d\nINVARIANT OracleVsDoc\nINVARIANT FeasibleImpliesZero\n"
@@ -291,13 +313,7 @@ def run(prop: str, tier: str, seed: int) -> int:
         n = rng.choice([2, 4, 4, 6])
         rounds = rng.choice([1, 2, 2, 3])
         ll = rounds * n - 1
-        if k % 2 == 0:
-            c = {}
-        else:
-            hmin, amin = rng.randint(1, min(3, ll)), rng.randint(1, min(3, ll))
-            smin = rng.randint(0, min(3, ll))
-            c = {"hmin": hmin, "hmax": rng.randint(hmin, ll), "amin": amin, "amax": rng.randint(amin, ll),
-                 "smin": smin, "smax": rng.randint(smin, ll)}
+        c = extreme_cfg(rng, ll, k)
         inst = tp.make_instance(n, rounds, c)
         eo = ErrObj(inst)
         days = (n - 1) * rounds
@@ -320,6 +336,34 @@ def run(prop: str, tier: str, seed: int) -> int:
                       "plans": [{"plan": [r[:] for r in p], "errors": small(v)}]})
         rep.family("maximised-by-local-search", 1, 1)
         rep.nontrivial += 1
+    # structured extreme plans (the same inconsistent day over and over, ...) under the whole range of limits:
+    # they maximise one error source at a time and are what a declared upper bound has to cover
+    for k in range({"quick": 250, "thorough": 2500}[tier]):
+        n = rng.choice([2, 4, 4, 6, 8])
+        rounds = rng.choice([1, 2, 2, 3])
+        ll = rounds * n - 1
+        inst = tp.make_instance(n, rounds, extreme_cfg(rng, ll, rng.randrange(8)))
+        eo = ErrObj(inst)
+        days = (n - 1) * rounds
+        rows_of_kind = {
+            "cycle-home": [(t + 1) % n + 1 for t in range(n)],
+            "cycle-away": [-((t + 1) % n + 1) for t in range(n)],
+            "all-visit-last": [-n] + [1] * (n - 1) if n > 2 else [-2, -1],
+            "everybody-hosts-random": [rng.choice([o for o in range(1, n + 1) if o != t + 1]) for t in range(n)],
+            "everybody-away-random": [-rng.choice([o for o in range(1, n + 1) if o != t + 1]) for t in range(n)],
+            "self": [t + 1 for t in range(n)], "byes": [0] * n,
+        }
+        plans = []
+        for kind in rng.sample(sorted(rows_of_kind), 4):
+            row = rows_of_kind[kind]
+            rows = [row[:] for _ in range(days)]
+            if rng.random() < 0.3:      # alternate with its mirror image
+                for d in range(1, days, 2):
+                    rows[d] = [-v for v in row]
+            plans.append({"plan": rows, "errors": small(eo.eval(rows))})
+        cases.append({"id": f"extreme-{k}", "cfg": tp.cfg_of(inst), "ub": small(eo.ub), "plans": plans})
+        rep.family("structured-extreme-plans", len(plans), len(plans))
+        rep.nontrivial += len(plans)
     # many teams: the shipped instances go up to 40 teams; team ids around word sizes and the int8 edge
     for n in {"quick": [32, 34, 40], "thorough": [32, 34, 36, 40, 64, 66, 126, 128, 130]}[tier]:
         rounds = 2 if n <= 40 else 1
